@@ -88,17 +88,27 @@ if 'pathlib.Path' not in QUALIFIED:
     qualified('pathlib.Path')(q_path)
 
 
+_MKSTEMP = 'cell_type_mapper.utils.utils.mkstemp_clean'
+_prev_mkstemp = QUALIFIED.get(_MKSTEMP)
+
+
 def q_mkstemp_clean(ev, state, node):
-    """A-TMP: a path never handed out before; recorded in the ghost list `tmp_created`"""
-    for k in node.keywords:
-        try:
-            ev.eval(state, k.value)
-        except Unsupported:
-            if not ev.ctx.lenient:
-                raise
-    p = fresh(T.NAME, 'tmp_path')
+    """A-TMP: a path never handed out before; recorded in the ghost list `tmp_created` (creation
+    order) when the contract declares it.  Composed with the handler of pyvc/ghost.py (scratch
+    ghost `live`, C19) when that one is registered: it produces the fresh name, this one only adds
+    the creation-order bookkeeping."""
+    if _prev_mkstemp is not None:
+        p = _prev_mkstemp(ev, state, node)
+    else:
+        for k in node.keywords:
+            try:
+                ev.eval(state, k.value)
+            except Unsupported:
+                if not ev.ctx.lenient:
+                    raise
+        p = fresh(T.NAME, 'tmp_path')
     ref = state.env.get('tmp_created')
-    if ref is not None:
+    if ref is not None and p.ty == T.NAME:
         created = read_ref(state, ref)
         i = z3.Int(fresh_name('ti'))
         state.assume(z3.ForAll([i], z3.Implies(z3.And(0 <= i, i < seq_len(created)),
@@ -107,8 +117,9 @@ def q_mkstemp_clean(ev, state, node):
     return p
 
 
-if 'cell_type_mapper.utils.utils.mkstemp_clean' not in QUALIFIED:
-    qualified('cell_type_mapper.utils.utils.mkstemp_clean')(q_mkstemp_clean)
+if not getattr(_prev_mkstemp, '_precompute', False):
+    q_mkstemp_clean._precompute = True
+    QUALIFIED[_MKSTEMP] = q_mkstemp_clean
 
 
 # ---------------------------------------------------------------------------------------------
